@@ -112,6 +112,23 @@ void vf_corpus_init(void) {
       if (kind == 2) for (unsigned i = 0; i < depth; i++) put(0xff);
       finish(kind == 0 ? "%llu nested one-element arrays" : kind == 1 ? "%llu nested tags" : "%llu nested indefinite arrays", depth, 0);
     }
+  /* exactly at the default limit with an EMPTY container innermost: the decoder completes an empty definite container at its own head, so
+   * 2048 open containers + [] / {} is acceptable and is a tree of 2049 containers for everything that walks it afterwards */
+  for (unsigned kind = 0; kind < 4; kind++)
+    for (unsigned inner = 0; inner < 2; inner++) {
+      unsigned depth = 2048;
+      for (unsigned i = 0; i < depth; i++) {
+        if (kind == 0) put(0x81);
+        else if (kind == 1) put(0xc2);
+        else if (kind == 2) { put(0xa1); put(0x00); }
+        else put(0x9f);
+      }
+      put(inner ? 0xa0 : 0x80);
+      if (kind == 3) for (unsigned i = 0; i < depth; i++) put(0xff);
+      static const char* NM[4][2] = {{"%llu nested arrays around an empty array", "%llu nested arrays around an empty map"}, {"%llu nested tags around an empty array", "%llu nested tags around an empty map"},
+                                     {"%llu nested maps around an empty array", "%llu nested maps around an empty map"}, {"%llu nested indefinite arrays around []", "%llu nested indefinite arrays around {}"}};
+      finish(NM[kind][inner], depth, 0);
+    }
   head(6, 0xffffffffffffffffull);
   head(6, 0x100000000ull);
   head(6, 65536);
